@@ -1,13 +1,14 @@
 CONSTANTS
   HashMode = "real"
   Bug = "none"
-  Sweeps = {"small", "hsmall", "xsmall", "ssmall", "ksmall"}
+  Sweeps = {"small", "hsmall", "xsmall", "ssmall", "ksmall", "fsmall"}
   PairDepth = 2
   NearDepth = 2
   DeepDepth = 3
   HierDepth = 3
   XDepth = 1
   SelfDepth = 3
+  FormDepth = 3
   Wide = TRUE
   EmitCases = FALSE
 INIT Init
